@@ -116,6 +116,13 @@ def cache_get(key):
 def cache_put(key, data):
     d = os.path.join(WORK, "cache")
     os.makedirs(d, exist_ok=True)
+    part = key.split("-")[0]
+    for fn in os.listdir(d):                       # keep only the newest result per part
+        if fn.startswith(part + "-") and fn.endswith(".json"):
+            try:
+                os.remove(os.path.join(d, fn))
+            except OSError:
+                pass
     tmp = os.path.join(d, ".%s.%d.tmp" % (key, os.getpid()))
     with open(tmp, "w") as f:
         json.dump(data, f)
